@@ -1464,21 +1464,22 @@ def owmr_system(num_retailers, node_order_in_system=None, node_order_in_lists=No
 
 	# Make local copy of kwarg dict.
 	local_kwargs = copy.deepcopy(kwargs)
-	# Set demand_source parameter so it only occurs at retailer nodes.
-	if 'demand_source' not in local_kwargs:
-		local_kwargs['demand_source'] = {}
-	local_kwargs['demand_source'][node_order_in_system[-1]] = DemandSource()
 
 	# Determine node_order_in_lists.
 	if node_order_in_lists is None:
 		node_order_in_lists = node_order_in_system
 
 	# Build network.
-	return network_from_edges(
+	network = network_from_edges(
 		edges=edges,
 		node_order_in_lists=node_order_in_lists,
 		**local_kwargs
 	)
+
+	# Set demand_source attribute so it only occurs at retailer nodes (not at the warehouse).
+	network.nodes_by_index[node_order_in_system[0]].demand_source = DemandSource()
+
+	return network
 
 
 def mwor_system(num_warehouses, node_order_in_system=None, node_order_in_lists=None, **kwargs):
